@@ -26,6 +26,9 @@ def parse_server_case(line):
             evs.append({"k": "B", "cls": t[2]})
         elif t[0] == "D":
             evs.append({"k": "D", "sid": int(t[1]), "status": int(t[2]), "body": t[4]})
+        elif t[0] == "M":
+            # a burst of frames written at once: the ledger applies their grants in order
+            evs.append({"k": "M", "frames": [x for x in p.split(" ~ ")]})
         else:
             evs.append({"k": t[0]})
     return cfg, evs
@@ -69,6 +72,8 @@ def oracle_c06(line, go):
     for i, ev in enumerate(evs):
         g = groups[i] if i < len(groups) else []
         # the frame the peer sends first: grants apply before the server's reaction to it
+        if ev["k"] == "GS":
+            conn += 1   # the harness nudges the stream loop to its gate with WINDOW_UPDATE(0, 1)
         if ev["k"] == "F":
             if ev["kind"] == "H" and ev["sid"] not in win and ev["sid"] % 2 == 1:
                 win[ev["sid"]] = init
@@ -119,6 +124,8 @@ def oracle_c10(line, go):
     dispatched = []
     goaways = []
     for gi, it in items(groups):
+        if it.startswith("Xlate"):
+            continue   # dispatched after the connection had gone (gated schedules): its stream id is not observable
         if it.startswith("X"):
             dispatched.append((gi, int(it[1:].split(":")[0])))
         elif it.startswith("G") and ":" in it and not it.startswith("G0,"):
@@ -207,8 +214,6 @@ def oracle_c18(line, go):
                 if hexlen(payload) > limit:
                     return "%s frame of %d bytes on stream %s exceeds the peer's MAX_FRAME_SIZE %d" % (
                         "HEADERS" if it[0] == "H" else "DATA", hexlen(payload), sid, limit)
-        if g and g[-1] not in ("-",) and "E" not in g and ev["k"] == "F" and ev["kind"] == "S" and acks_due > 0 and not any(x.startswith("G") and ":" in x for x in g):
-            return "SETTINGS frame not acknowledged in the step that processed it"
     return None
 
 
